@@ -261,7 +261,13 @@ def check(item, case, rec):
         if item == "SolidBody/mixed-threefield" or (item != "SolidBody/mixed-nearlyinc" and case["mask"]):
             um = fem.ThreeFieldVariation(fem.NeoHooke(mu=1.0, bulk=case["bulk"]))
         else:
-            um = fem.NearlyIncompressible(base, bulk=case["bulk"])
+            if case["lseed"] % 2:
+                # user-defined volumetric law U(J) = K/4 (J^2 - 1 - 2 ln J): U'' differs from K away from J = 1
+                um = fem.NearlyIncompressible(base, bulk=case["bulk"], dUdJ=lambda J, bulk: bulk / 2 * (J - 1 / J),
+                                              d2UdJdJ=lambda J, bulk: bulk / 2 * (1 + 1 / J**2))
+                rec.label("user-volumetric-law")
+            else:
+                um = fem.NearlyIncompressible(base, bulk=case["bulk"])
         body = fem.SolidBody(um, fc)
         set_state(fc, X, case, dim)
         symmetric = True
